@@ -1,7 +1,7 @@
 """C12 - PeekingLexer cursors.  spec/PeekingLexer.tla checked exhaustively by TLC (MC_PeekingLexer); every explored
 transition replayed into a real lexer.PeekingLexer (B1); random operation traces of the real object validated by
 Trace_PeekingLexer (B2); binding self-test (a corrupted event must be rejected)."""
-import json, os, random
+import json, os, random, shutil, subprocess
 import vlib
 from vlib import Infra, Verdict, log
 
@@ -92,6 +92,25 @@ def run(pid, tier, args):
             if rej is None and res.ok:
                 raise Infra("binding self-test failed: corrupted trace accepted")
             v.notes["binding_selftest"] = "event %d corrupted (cursor+1): rejected at line %s" % (k + 1, rej)
+        # Apalache: the cursor invariant is INDUCTIVE for every stream of <= n tokens with symbolic contents (any state satisfying
+        # the invariant, not only reachable ones) - a bound beyond TLC's enumeration; the loops are described by postconditions
+        n_ind = 10 if tier == "quick" else 14
+        ad = os.path.join(wd, "apalache")
+        os.makedirs(ad)
+        shutil.copy(os.path.join(vlib.SPEC, "PeekingLexerInd.tla"), ad)
+        open(os.path.join(ad, "PeekingLexerInd.cfg"), "w").write(open(os.path.join(vlib.SPEC, "PeekingLexerInd.cfg")).read().replace("MaxLen = 10", "MaxLen = %d" % n_ind))
+        try:
+            pr = subprocess.run(["timeout", "900", "apalache-mc", "check", "--config=PeekingLexerInd.cfg", "--init=IndInit", "--inv=IndInv", "--length=1", "PeekingLexerInd.tla"],
+                                cwd=ad, stdout=subprocess.PIPE, stderr=subprocess.STDOUT)
+            out = pr.stdout.decode("utf8", "replace")
+        except FileNotFoundError:
+            out = "apalache-mc not installed"
+        if "The outcome is: NoError" in out:
+            v.notes["apalache_inductive_invariant"] = "IndInit => IndInv and IndInv /\\ Next => IndInv' hold for all streams of <= %d tokens (symbolic contents), PeekingLexerInd.tla" % n_ind
+        elif "The outcome is: Error" in out:
+            raise Infra("Apalache: the inductive invariant of PeekingLexerInd.tla fails (specification defect): %s" % out[-600:])
+        else:
+            v.notes["apalache_inductive_invariant"] = "not run to completion (%s)" % out.strip().splitlines()[-1][:120] if out.strip() else "not run"
         v.cov["exhaustive"] = True
         v.notes["family"] = "all streams of <= %d tokens over {ordinary, elided, elided+selected} + EOF; 2 checkpoint slots; every operation with every argument in every reachable state; %d random traces" % (maxlen, ntr)
         v.notes["ops_replayed"] = ops
